@@ -11,9 +11,9 @@ package main
 //	R <pattern> <method>                                         Handle returned (between requests only)
 //	Q <pattern> <method>                                         Handle panicked (route rejected); the harness recovered and goes on with the Mux
 //	B <k> <path> <method> <who> <status> <id> <any> {<value>}*nn   request k entered its handler; everything read through the Store
-//	W <k> <code>                                                 request k's handler called W.WriteHeader(code), or its relay (Logger.Relay: 200 at
-//	                                                             REQ_END, 500 after a recovered panic) changed W.Status to <code>
-//	F <k>                                                        handler k called W.Flush()
+//	W <k> <status>                                               W.Status as read back right after an own action of request k on its writer changed it
+//	                                                             (WriteHeader, Flush, installing a wrapper writer; its relay: Logger.Relay sets 200 at
+//	                                                             REQ_END and 500 after a recovered panic) - whatever recording policy the writer has
 //	X <k> <who> <status> <id> <any> {<value>}*nn                   everything read AGAIN at handler exit
 //	Y <k> ret|rec|esc <who> <status> <id> <any> {<value>}*nn       ... and AGAIN in the relay after the handler returned / panicked and Logger.Relay
 //	                                                             recovered / while the panic unwinds through a relay that does not recover
@@ -127,10 +127,11 @@ type look struct {
 }
 
 type obs struct {
-	look             // at handler entry
-	exit, after look // at handler exit; in the relay after the handler
-	own         int  // W.Status as the request itself last made it
-	ownExit     int  // ... at handler exit
+	look               // at handler entry
+	exit, after look   // at handler exit; in the relay after the handler
+	own         int    // W.Status as read back after the request's last own action on the writer
+	foreign     string // W.Status changed while the request did nothing
+	ownExit     int    // ... at handler exit
 	ran         int
 	ptr         uintptr
 }
@@ -255,31 +256,35 @@ func (w *world) handlerGen(idx int, gen int) httpd.HandlerFunc {
 			c.spec.signalEntered()
 			<-c.spec.release
 		}
-		flush := func() {
-			s.W.Flush()
-			if o.own == 0 {
-				o.own = http.StatusOK
+		if st := s.W.Status; st != o.own { // nothing of this request has run since the entry look (it may have been held)
+			o.foreign = fmt.Sprintf("W.Status went from %d to %d between handler entry and the request's first own action", o.own, st)
+		}
+		// after each of the request's OWN actions on the writer the status is read back: how an implementation records a
+		// status (last code wins, first final code wins, ...) is not C05's business, only that it is this request's doing
+		noted := func() {
+			if st := s.W.Status; st != o.own {
+				o.own = st
+				w.event("W", strconv.Itoa(c.k), strconv.Itoa(st))
 			}
-			w.event("F", strconv.Itoa(c.k))
 		}
 		if c.spec.replaceP {
 			s.P = &httpd.Params{K: append([]string(nil), s.P.K...), V: append([]string(nil), s.P.V...)}
 		}
 		if c.spec.replaceW {
 			s.W = &httpd.ResponseWriter{Origin: s.W.Origin, Status: 201}
-			o.own = 201
-			w.event("W", strconv.Itoa(c.k), "201")
+			noted()
 		}
 		if c.spec.flush == 1 {
-			flush()
+			s.W.Flush()
+			noted()
 		}
 		if c.spec.code != 0 {
 			s.W.WriteHeader(c.spec.code)
-			o.own = c.spec.code
-			w.event("W", strconv.Itoa(c.k), strconv.Itoa(c.spec.code))
+			noted()
 		}
 		if c.spec.flush == 2 {
-			flush()
+			s.W.Flush()
+			noted()
 		}
 		o.ownExit = o.own
 		o.exit = w.read(s, idx, c.staleNR)
@@ -436,11 +441,13 @@ func (h *history) judge(e *hk.Env, st *stats) {
 		if s.o.status != 0 {
 			bad(fmt.Sprintf("W.Status %d at handler entry", s.o.status))
 		}
+		if s.o.foreign != "" {
+			bad(s.o.foreign)
+		}
 		for _, again := range []struct {
-			when string
-			l    look
-			own  int
-		}{{"at handler exit", s.o.exit, s.o.ownExit}, {"in the relay after the handler", s.o.after, s.o.own}} {
+			when  string
+			l, fl look
+		}{{"at handler exit", s.o.exit, f.exit}, {"in the relay after the handler", s.o.after, f.after}} {
 			l := again.l
 			if l.id != s.o.id {
 				bad(fmt.Sprintf("GetID changed during the request: %q then %q %s", s.o.id, l.id, again.when))
@@ -448,8 +455,8 @@ func (h *history) judge(e *hk.Env, st *stats) {
 			if l.who != s.o.who || l.any != s.o.any || strings.Join(l.vals, "\x00") != strings.Join(s.o.vals, "\x00") {
 				bad(fmt.Sprintf("route / params changed during the request: %s %q %q then %s %q %q %s", s.o.who, s.o.any, s.o.vals, l.who, l.any, l.vals, again.when))
 			}
-			if l.status != again.own {
-				bad(fmt.Sprintf("W.Status %d %s, the request itself made it %d", l.status, again.when, again.own))
+			if l.status != again.fl.status { // the same request doing the same things on a fresh Mux of the same implementation
+				bad(fmt.Sprintf("W.Status %d %s, %d for the same request on a fresh Mux", l.status, again.when, again.fl.status))
 			}
 		}
 		if prev, dup := ids[s.o.id]; dup {
